@@ -7,6 +7,8 @@ import (
 
 	proto "github.com/kubewharf/kubebrain-client/api/v2rpc"
 
+	"github.com/kubewharf/kubebrain/pkg/backend/tso"
+	"github.com/kubewharf/kubebrain/pkg/zzmodel"
 	"github.com/kubewharf/kubebrain/pkg/zzverif"
 )
 
@@ -121,7 +123,10 @@ func (w *vWorld) vWriteSeq(n int) {
 // sequencer and the fan-out within the preemption bound. The delivered sequence is exactly the
 // reference sequence, or the watch was refused.
 func VerifC05Handover() {
-	w := vNewWorld(1)
+	// metric emissions inside Watch / the sequencer are labelled scheduling points (native gates)
+	ym := &zzmodel.YieldMetrics{}
+	w := &vWorld{s: zzmodel.NewStore(), g: zzmodel.NewGhost(), nkeys: 1, base: 5, dealt: 5}
+	w.b = vNewBackendFull(w.s, 5, zzverif.Param("cache", 8), func(t tso.TSO) tso.TSO { return t }, ym)
 	w.vWriteSeq(zzverif.Param("before", 1))
 	zzverif.WaitIdle()
 	s := zzverif.U64("S")
@@ -129,6 +134,7 @@ func VerifC05Handover() {
 	var ch <-chan []*proto.Event
 	var werr error
 	done := make(chan struct{}, 2)
+	ym.Yield = zzverif.YieldAt
 	zzverif.ExploreSchedules(zzverif.Param("preempt", 1))
 	zzverif.Foreground("collectStorageWriteEvents")
 	zzverif.Foreground("Stream")
@@ -143,6 +149,7 @@ func VerifC05Handover() {
 	<-done
 	<-done
 	zzverif.StopExploring()
+	ym.Yield = nil
 	zzverif.WaitIdle()
 	if werr != nil {
 		zzverif.Cover("refused")
